@@ -676,6 +676,19 @@ func boundaryCases() []func(c *core.Ctx) {
 			}
 		}
 	}
+	// a failing right-hand side fails the render also when the assigned name is new and never read again
+	for _, src := range []string{"{{ t9 = 1 / 0 }}done", "{{ t9 = nope9 }}done", "{{ t9 = 1 + \"a\" }}done", "{{ t9 = 7 % zz }}done", "{{ t9 = -\"s\" }}", "x{{ t9 = [1, nope9] }}", "{{ t9 = {k: 1 / 0} }}",
+		"{{ t9 = 1 }}{{ u9 = t9 / 0 }}{{ t9 }}", "@if(true){{ t9 = nope9 }}@end ok", "@each(v in [1, 2]){{ w9 = v / 0 }}@end", "{{ t9 = true ? nope9 : 1 }}", "{{ t9 = nope9.x.y }}"} {
+		src := src
+		out = append(out, func(c *core.Ctx) {
+			c.Input(src)
+			got := evalString(c, src, map[string]any{"zz": 0})
+			c.Nontrivial(src)
+			if !got.Panicked && got.Err == nil {
+				c.Violation("boundary:failing-assignment", fmt.Sprintf("%s rendered %q although the right-hand side fails", src, got.Out), map[string]any{"source": src})
+			}
+		})
+	}
 	// a list written one element per line may end in a comma: same tree, same value
 	for _, tc := range []struct{ src, out string }{
 		{"{{ [1, 2,] }}", "1, 2"}, {"{{ [1,].len() }}", "1"}, {"{{ \"abc\".contains(\"b\",) }}", "1"}, {"{{ true.then(\"y\", \"n\",) }}", "y"},
